@@ -359,7 +359,66 @@ def check(ctx):
                         sib = [x for x in (blk.orelse if s in getattr(blk, "orelse", []) else blk.body) if isinstance(x, ast.Assign) and const_num(x.value) == 0]
                         okd = bool(sib)
             ctx.check(okd, step, c, f"deterministic branch: estimate := {y}, sd := 0", f"in the deterministic branch of {step.short} the estimate is not the observation {y} with SD 0", construct=f"deterministic estimate in {step.short}")
+    # ------------------------------------------------------------------ R5
+    ctx.rule("R5", "start-up: whenever the observed value of the incumbent is (re)assigned the estimate follows it (fval = yval at the end of the initialisation)", floor=1)
+    _initial_estimate_rule(ctx, prog, R)
+    # ------------------------------------------------------------------ R6
+    ctx.rule("R6", "noise level 0 (deterministic: fsd = 0, target_type deterministic) exactly when no noise handling is requested", floor=1)
+    from .noiselevel import noise_level_table_rule
+
+    noise_level_table_rule(ctx, prog, R)
     ctx.assume("the log stores the observed value unchanged (C12-R3); the default incumbent-update policy (stobads off)")
+
+
+def _initial_estimate_rule(ctx, prog, R):
+    """Forward must-dataflow over the initialisation routine: Y = the expression last stored into self.yval (as written, plus
+    the spelling ``self.yval``), C = 'self.fval currently equals self.yval'.  A store ``self.fval = e`` establishes C iff e is
+    one of the spellings in Y (a local that was re-bound since is dropped from Y); a store to self.yval clears C.  C must hold
+    at every normal exit: a deterministic run that ends without a further move reports this pair."""
+    from ..flow import BasePolicy, TagFlow
+
+    mesh = R.init_mesh
+
+    class P(BasePolicy):
+        def initial(self, flow):
+            return {"$y": frozenset(), "$c": frozenset({"C"})}
+
+        def after_stmt(self, node, state, flow):
+            st = node.stmt
+            if node.kind != "stmt" or not isinstance(st, (ast.Assign, ast.AugAssign, ast.AnnAssign)):
+                return state
+            for t, v, s_, k in iter_stores(st):
+                if isinstance(t, ast.Name):
+                    # a re-bound local no longer spells the stored observation
+                    state["$y"] = frozenset(x for x in state.get("$y", frozenset()) if t.id not in x.split("|")[1:])
+                a = self_attr_of(t)
+                if not isinstance(t, ast.Attribute) or a not in ("yval", "fval"):
+                    continue
+                names = "|".join(sorted({n.id for n in ast.walk(v) if isinstance(n, ast.Name)})) if v is not None else ""
+                spelled = (canon(v) if k == "assign" else f"{canon(v)}#{k}") + "|" + names if v is not None else "?"
+                if a == "yval":
+                    if v is not None and canon(v) == "self.fval" and "C" in state.get("$c", frozenset()):
+                        continue
+                    state["$y"] = frozenset({spelled})
+                    state["$c"] = frozenset()
+                else:
+                    ok = v is not None and (canon(v) == "self.yval" or spelled in state.get("$y", frozenset()))
+                    state["$c"] = frozenset({"C"}) if ok else frozenset()
+            return state
+
+    fl = TagFlow(prog, mesh, P())
+    st = fl.state_at_exit()
+    if st is None:
+        ctx.undecided("the initialisation routine has no normal exit")
+        return
+    bad = None
+    if "C" not in st.get("$c", frozenset()):
+        # name the last store of the estimate
+        fs = [s_ for t, v, s_, k in iter_stores(mesh.node) if self_attr_of(t) == "fval" and isinstance(t, ast.Attribute)]
+        bad = max(fs, key=pos) if fs else mesh.node
+    ctx.check(bad is None, mesh, bad if bad is not None else mesh.node, "self.fval equals self.yval at the end of the initialisation on every path",
+              "on some path the initialisation ends with self.fval holding something other than the observed value self.yval of the incumbent it selected (e.g. the value of the first evaluation after a better design point was chosen): a deterministic run that makes no further move returns that pair",
+              construct="initial fval vs yval")
 
 
 def _unfilled_rows_nan(prog, R, attr: str) -> bool:
